@@ -3,6 +3,8 @@
 \* of <= 3 lines over E I ID P with 3 patterns; 1..3 patterns with the simplest texts); one call the API REFUSES
 \* after 0..3 add_* calls (every kind), followed by add_* calls up to 3 paragraphs; refused calls among the edits of
 \* every re-parsed context-only document
+\* -- among those calls: the ones the format does not settle (MayReject: a look-alike of white space inside a pattern /
+\* a synopsis / a custom value), with BOTH outcomes (acc), and the faults of caller-supplied objects (kind "fault")
 CONSTANTS
   Mode = "doc"
   Alphabet = {}
